@@ -236,6 +236,9 @@ def _run_hyp_shard(args):
             guarded(ctx, part.check, case)
         except Inconclusive:
             ctx.inconclusive += 1
+        except Violation as v:
+            last["violation"] = (v, case)
+            raise
 
     try:
         for _round in range(MAX_BUCKETS):
@@ -251,10 +254,19 @@ def _run_hyp_shard(args):
                 case = v.case if v.case is not None else jsonable(last.get("case"))
                 ctx.violations.append(dict(bucket=v.bucket, message=v.message, case=case, raw_case=jsonable(last.get("case"))))
                 ctx.muted.add(v.bucket)
+                last.pop("violation", None)
+            except env.HarnessError:
+                raise
+            except Exception as e:   # noqa -- the library itself failed (e.g. while shrinking)
+                if "violation" in last:
+                    v, c = last.pop("violation")
+                    ctx.violations.append(dict(bucket=v.bucket, message=v.message + " [unshrunk: %s in the generator library]" % type(e).__name__,
+                                               case=v.case if v.case is not None else jsonable(c)))
+                    ctx.muted.add(v.bucket)
+                else:
+                    return dict(harness_error="generator library: %s" % "".join(traceback.format_exception(type(e), e, e.__traceback__))[-3000:])
     except env.HarnessError as e:
         return dict(harness_error=str(e))
-    except hypothesis.errors.HypothesisException as e:
-        return dict(harness_error="hypothesis: %s: %s" % (type(e).__name__, e))
     return ctx.summary()
 
 
